@@ -24,12 +24,15 @@ class Net(object):
         self.eager = eager   # deliver as soon as something is published (subscriber threads keep up with the publisher)
         self.busy  = False
         self.quiet = True
+        self.proxy_down = False
     def subscribe(self, url, cb):
         self.subs.setdefault(url, []).append(cb)
     def unsubscribe(self, url, cb):
         if cb in self.subs.get(url, []):
             self.subs[url].remove(cb)
     def put(self, url, topic, msg):
+        if self.proxy_down and str(url).startswith('mem://proxy/'):
+            return            # the proxy service has ended the session's channels: nothing travels between the sides
         self.queue.append((url, topic, copy.deepcopy(msg)))
         if self.eager and not self.busy:
             self.busy = True
@@ -189,16 +192,43 @@ def run_close(rp, nsides, closer, terminate):
     sess._closed, sess._uid, sess._rep = False, 'session.verif', rpload.NullLog()
     sess._close_options = rs._CloseOptions({'terminate': terminate, 'download': False})
     sess._tmgrs, sess._pmgrs = {}, ({'pmgr.0000': Mgr()} if closer == 0 else {})
-    sess._cmgr = sess._proxy_client = sess._proxy = None
+    sess._cmgr = sess._proxy = None
+    requests = []
+    class ProxyClient(object):
+        # the session's client of the proxy service: `unregister` makes the service end the channels of the SESSION
+        # (Proxy._unregister stops the bridges all sides of the session share)
+        def request(self, cmd, arg=None):
+            requests.append(cmd)
+            if cmd == 'unregister': net.proxy_down = True
+        def close(self): pass
+    sess._proxy_client = ProxyClient()
     sess._ctrl_pub, sess._reg, sess._reg_service, sess._ctrl_sub = CtrlPub(), Stub(), Stub(), Stub()
     sess._t_start = 0.0
     sess.close()
-    return published, got, net.quiet
+    # the other sides go on: what they publish with the forward flag afterwards still reaches each other (unless the
+    # side that closed was the client: the session is over then)
+    post = []
+    if closer != 0:
+        for s in range(nsides):
+            if s == closer: continue
+            m = {'cmd': 'after_close_%d' % s, 'arg': None, 'fwd': True}
+            post.append([s, m['cmd']])
+            net.put('mem://%d/%s' % (s, ch), ch, m)
+        net.run()
+    return published, got, net.quiet, post, requests
 
 
-def close_monitor(nsides, closer, published, got, quiet):
+def close_monitor(nsides, closer, published, got, quiet, post=(), requests=()):
     if not quiet:
         return ('close:network-does-not-quiesce', 'hop budget exhausted')
+    for s, cmd in post:
+        for t in range(nsides):
+            if t == closer: continue
+            n = len([x for x in got[t] if x.get('cmd') == cmd])
+            if n != 1:
+                return ('close:sides-that-go-on-are-cut-off-%d-deliveries' % n,
+                        'after pilot side %d closed its session (requests to the proxy service: %s), %s published on side %d with the '
+                        'forward flag is delivered %d times on side %d' % (closer, list(requests), cmd, s, n, t))
     for m in published:
         if not m.get('fwd'): continue
         for t in range(nsides):
@@ -215,10 +245,10 @@ def close_cases(rp, ctx):
     for nsides in (2, 3, 4):
         for closer in range(nsides):
             for terminate in (True, False):
-                published, got, quiet = run_close(rp, nsides, closer, terminate)
+                published, got, quiet, post, requests = run_close(rp, nsides, closer, terminate)
                 n += 1
-                ctx.case({'close': [nsides, closer, terminate]}, nontrivial=bool(published))
-                bad = close_monitor(nsides, closer, published, got, quiet)
+                ctx.case({'close': [nsides, closer, terminate]}, nontrivial=bool(published) or bool(post))
+                bad = close_monitor(nsides, closer, published, got, quiet, post, requests)
                 if bad:
                     ctx.fail(bad[0], bad[1], {'close': {'nsides': nsides, 'closer': closer, 'terminate': terminate}},
                              observed={'published': published, 'received': {str(k): [x.get('cmd') for x in v] for k, v in got.items()}})
@@ -460,8 +490,8 @@ def replay(ctx, data):
         return False
     if 'close' in i:
         a = i['close']
-        published, got, quiet = run_close(rp, a['nsides'], a['closer'], a['terminate'])
-        bad = close_monitor(a['nsides'], a['closer'], published, got, quiet)
+        published, got, quiet, post, requests = run_close(rp, a['nsides'], a['closer'], a['terminate'])
+        bad = close_monitor(a['nsides'], a['closer'], published, got, quiet, post, requests)
         print('observed: published', [m.get('cmd') for m in published], 'received', {k: [x.get('cmd') for x in v] for k, v in got.items()}, bad)
         return not bad
     if 'rpc' in i:
